@@ -9,6 +9,8 @@ import Rl.Lemmas.EditorOps
 import Rl.Props.C03
 import Rl.Highlight
 import Rl.Lemmas.Highlight
+import Rl.Spec.Highlight
+import Rl.Lemmas.HighlightOracle
 open Rl
 
 /-- The decision table: Enter submits only on a Valid verdict. -/
@@ -464,3 +466,196 @@ theorem C13_bracket_stale_state_panics :
     run none [.hchar "() )".toList 4 .other, .hl "()".toList] = none := by decide
 
 end BracketMatching
+
+/-! ## The partner search equals the counting oracle -/
+section BracketOracle
+open Rl.Highlight
+
+/-- The model's partner search (`find_matching_bracket`: a scan with a depth counter) computes
+    exactly the declarative oracle `Rl.Spec.Highlight.partner` (pure counting: for an opening
+    bracket the first later byte position at which the closing brackets of the same kind, counted
+    from just after the bracket, outnumber the opening ones by one; for a closing bracket the last
+    earlier position with the symmetric property).  For EVERY byte string `bs`, position `pos` and
+    byte `br`: if `br` is one of `( [ { ) ] }` and the model does not panic (returns `some r`), then
+    `r` is `none` exactly when the oracle finds no partner, and `some (matching bracket of br, q)`
+    exactly when the oracle's partner is `q`.  No hypothesis that byte `pos` of `bs` is `br`, nor
+    that `pos` is inside `bs`, is needed. -/
+theorem C13_bracket_find_eq_oracle (bs : Bytes) (pos : Nat) (br : UInt8)
+    (hb : (isOpenB br || isCloseB br) = true) (r : Option (UInt8 × Nat))
+    (h : findMatchingBracket bs pos br = some r) :
+    r = (Rl.Spec.Highlight.partner bs pos br).map (fun q => (matchingBracket br, q)) :=
+  find_eq_partner bs pos br hb r h
+
+/-- Same fact for the way the editor uses it (remembered position inside the line): the model does
+    not panic and its answer is the oracle's. -/
+theorem C13_bracket_find_eq_oracle_in_line (bs : Bytes) (pos : Nat) (br : UInt8)
+    (hb : (isOpenB br || isCloseB br) = true) (hp : pos < bs.length) :
+    findMatchingBracket bs pos br
+      = some ((Rl.Spec.Highlight.partner bs pos br).map (fun q => (matchingBracket br, q))) := by
+  cases h : findMatchingBracket bs pos br with
+  | none => exact absurd h (C13_bracket_no_panic bs pos br hp)
+  | some r => rw [find_eq_partner bs pos br hb r h]
+
+/-- The bracket hypothesis cannot be dropped: for a non-bracket byte the model (which then scans
+    backwards for the byte itself) and the oracle differ.  `check_bracket` only ever remembers
+    bracket bytes (`C13_check_bracket_sound`), so this input does not arise in the editor. -/
+theorem C13_bracket_oracle_needs_bracket :
+    findMatchingBracket [120, 120] 1 120 = some (some (120, 0))
+      ∧ Rl.Spec.Highlight.partner [120, 120] 1 120 = none := by decide
+
+/-! Non-vacuity (kernel-evaluated): both directions, a found and a missing partner. -/
+example : findMatchingBracket (bytesOf "(()é)x".toList) 0 40 = some (some (41, 5))
+    ∧ Rl.Spec.Highlight.partner (bytesOf "(()é)x".toList) 0 40 = some 5 := by decide
+example : findMatchingBracket (bytesOf "[(])".toList) 3 41 = some (some (40, 1))
+    ∧ Rl.Spec.Highlight.partner (bytesOf "[(])".toList) 3 41 = some 1 := by decide
+example : findMatchingBracket (bytesOf "(()".toList) 0 40 = some none
+    ∧ Rl.Spec.Highlight.partner (bytesOf "(()".toList) 0 40 = none := by decide
+example : findMatchingBracket (bytesOf "x))".toList) 0 41 = some none
+    ∧ Rl.Spec.Highlight.partner (bytesOf "x))".toList) 0 41 = none := by decide
+
+/-- `highlight` as the editor uses it never panics.  For every line, cursor byte offset and
+    command kind: if the highlighter state `st` is the one produced by `highlight_char` on this
+    line, then `highlight st line` on the SAME line is not a panic — neither the slice in
+    `find_matching_bracket` nor the character-boundary check of `replace_range(idx..=idx)` can
+    fail, because the reported partner is an ASCII bracket byte of the line, hence a whole
+    one-byte character (every byte of a multi-byte UTF-8 encoding is ≥ 128).  No hypothesis on
+    the line (any Unicode text) or on the cursor (need not be a boundary, may be past the end). -/
+
+theorem C13_highlight_same_line_no_panic (line : Text) (cur : Nat) (kind : Kind) (st : HlState)
+    (h : (highlightChar line cur kind).1 = st) : highlight st line ≠ none := by
+  unfold highlight
+  split
+  · simp
+  · split
+    · simp
+    · rename_i br p
+      have hcb : checkBracket (bytesOf line) cur = some (br, p) := by
+        unfold highlightChar at h
+        split at h
+        · simp at h
+        · exact h
+      obtain ⟨hp, _, hbr, _, _⟩ := C13_check_bracket_sound _ _ _ _ hcb
+      split
+      · rename_i hf
+        exact absurd hf (C13_bracket_no_panic _ _ _ hp)
+      · simp
+      · rename_i m idx hf
+        have hmq : m = matchingBracket br ∧ (bytesOf line)[idx]? = some m := by
+          by_cases ho : isOpenB br = true
+          · have := C13_bracket_match_open _ _ _ _ _ ho hf
+            exact ⟨this.1, this.2.2.1⟩
+          · have ho' : isOpenB br = false := by simpa using ho
+            have hc : isCloseB br = true := by
+              rcases hbr with hbr | hbr
+              · exact absurd hbr ho
+              · exact hbr
+            have := C13_bracket_match_close _ _ _ _ _ hc ho' hf
+            exact ⟨this.1, this.2.2.1⟩
+        have hlt : m.toNat < 128 := by rw [hmq.1]; exact matching_toNat_lt hbr
+        obtain ⟨a, c, b, hs, hc1⟩ := split_at_ascii line idx m hmq.2 hlt
+        rw [hs]
+        simp [hc1]
+
+/-! Non-vacuity: a highlighted copy is produced on a line with a multi-byte character before the
+    partner; the state comes from `highlight_char`. -/
+example : (highlightChar "(é)".toList 0 .other).1 = some (40, 0)
+    ∧ highlight (some (40, 0)) "(é)".toList
+        = some (some ("(é".toList ++ escOn ++ [')'] ++ escOff)) := by decide
+
+/-- The model of `highlight` agrees with the declarative oracle `Rl.Spec.Highlight.highlight`
+    whenever the oracle gives an answer.  The oracle answers (is `some o`) when the line is at most
+    one byte long, when nothing is remembered, or when the remembered `(br, p)` is a bracket byte
+    that really is byte `p` of this line; it does not answer for a stale position.  In all those
+    cases the model does not panic and returns the same observation: "borrowed" (line unchanged)
+    exactly when the oracle says so, and otherwise the owned copy with the escape sequences around
+    the partner found by counting.  Holds for every line and state; no further hypotheses. -/
+theorem C13_highlight_eq_oracle (st : HlState) (line : Text) (o : Rl.Highlight.Obs)
+    (h : Rl.Spec.Highlight.highlight st line = some o) :
+    (o = .borrowed ∧ highlight st line = some none) ∨
+    (∃ t, o = .owned t ∧ highlight st line = some (some t)) := by
+  unfold Rl.Spec.Highlight.highlight at h
+  unfold highlight
+  split at h
+  · rename_i hb
+    simp only [hb, if_true]
+    left; simp at h; exact ⟨h.symm, by first | rfl | trivial⟩
+  · rename_i hb
+    simp only [hb, if_false]
+    split at h
+    · left; simp at h; exact ⟨h.symm, by first | rfl | trivial⟩
+    · rename_i br p
+      simp only at h
+      dsimp only
+      split at h
+      · simp at h
+      · rename_i hcond
+        have hget : (bytesOf line)[p]? = some br := by
+          by_cases hh : (bytesOf line)[p]? = some br
+          · exact hh
+          · exact absurd (Or.inl hh) hcond
+        have hbr : (isOpenB br || isCloseB br) = true := by
+          by_cases hh : (isOpenB br || isCloseB br) = true
+          · exact hh
+          · exact absurd (Or.inr hh) hcond
+        have hbr' : isOpenB br = true ∨ isCloseB br = true := by simpa using hbr
+        have hp := lt_of_getElem?_some hget
+        have hfind := C13_bracket_find_eq_oracle_in_line _ _ _ hbr hp
+        cases hpar : Rl.Spec.Highlight.partner (bytesOf line) p br with
+        | none =>
+          rw [hpar] at h hfind
+          rw [hfind]
+          left; simp at h; exact ⟨h.symm, by first | rfl | trivial⟩
+        | some q =>
+          rw [hpar] at h hfind
+          simp only [Option.map_some] at hfind
+          rw [hfind]
+          simp only at h ⊢
+          have hmq : (bytesOf line)[q]? = some (matchingBracket br) := by
+            by_cases ho : isOpenB br = true
+            · exact (C13_bracket_match_open _ _ _ _ _ ho hfind).2.2.1
+            · have ho' : isOpenB br = false := by simpa using ho
+              have hc : isCloseB br = true := by
+                rcases hbr' with hbr' | hbr'
+                · exact absurd hbr' ho
+                · exact hbr'
+              exact (C13_bracket_match_close _ _ _ _ _ hc ho' hfind).2.2.1
+          obtain ⟨a, c, b, hs, hc1⟩ := split_at_ascii line q _ hmq (matching_toNat_lt hbr')
+          rw [hs] at h ⊢
+          simp only [hc1, beq_self_eq_true, if_true]
+          right
+          simp only [Option.some.injEq] at h
+          exact ⟨_, h.symm, rfl⟩
+
+/-- Lifted to sequences of calls on one highlighter (the shape the differential harness target `hl`
+    replays): whenever the oracle's run answers `some os`, the model's run gives the same
+    observations (in particular it does not panic). -/
+theorem C13_highlight_run_eq_oracle (st : HlState) (ops : List Rl.Highlight.Op) (os : List Rl.Highlight.Obs)
+    (h : Rl.Spec.Highlight.run st ops = some os) : run st ops = some os := by
+  induction ops generalizing st os with
+  | nil => simpa [Rl.Spec.Highlight.run, run] using h
+  | cons op ops ih =>
+    cases op with
+    | hchar l p k =>
+      simp only [Rl.Spec.Highlight.run, run] at h ⊢
+      cases hr : Rl.Spec.Highlight.run (highlightChar l p k).1 ops with
+      | none => rw [hr] at h; simp at h
+      | some os' => rw [hr] at h; rw [ih _ _ hr]; exact h
+    | hl l =>
+      simp only [Rl.Spec.Highlight.run, run] at h ⊢
+      cases ho : Rl.Spec.Highlight.highlight st l with
+      | none => rw [ho] at h; simp at h
+      | some o =>
+        rw [ho] at h; simp only at h
+        cases hr : Rl.Spec.Highlight.run st ops with
+        | none => rw [hr] at h; simp at h
+        | some os' =>
+          rw [hr] at h
+          rcases C13_highlight_eq_oracle st l o ho with ⟨rfl, hm⟩ | ⟨t, rfl, hm⟩
+          · rw [hm]; simp only; rw [ih _ _ hr]; exact h
+          · rw [hm]; simp only; rw [ih _ _ hr]; exact h
+
+/-! Non-vacuity: the oracle does answer, with an owned copy, on a two-call sequence. -/
+example : Rl.Spec.Highlight.run none [.hchar "[(é)]".toList 0 .other, .hl "[(é)]".toList]
+    = some [.bool true, .owned ("[(é)".toList ++ escOn ++ [']'] ++ escOff)] := by decide
+
+end BracketOracle
